@@ -9,7 +9,7 @@ def spookyBlockSize : Nat := 96
 def spookyBufSize : Nat := 192
 def spookyMixRot : List Nat := [11, 32, 43, 31, 17, 28, 39, 57, 55, 54, 22, 46]
 def spookyEndPartialRot : List Nat := [44, 15, 34, 21, 38, 33, 10, 13, 38, 53, 42, 54]
-def spookyShortMixRot : List Nat := [50, 51, 30, 41, 54, 48, 38, 37, 62, 34, 5, 36]
+def spookyShortMixRot : List Nat := [50, 52, 30, 41, 54, 48, 38, 37, 62, 34, 5, 36]
 def spookyShortEndRot : List Nat := [15, 52, 26, 51, 28, 9, 47, 54, 32, 25, 63]
 def sipRotByVar : List (List Nat) := [[32], [13, 17], [32], [16, 21]]
 def sipInit : List Nat := [8317987319222330741, 7237128888997146477, 7816392313619706465, 8387220255154660723]
